@@ -102,7 +102,7 @@ def slice_dimensions(ctx, r3):
         pdx = None
         for bb, tm in x.calls():
             nm = strip_generics(tm.get('decl') or tm.get('callee') or '')
-            if nm not in ('std::iter::Iterator::take', 'std::iter::Iterator::skip') or len(tm['args']) < 2:
+            if nm not in ('std::iter::Iterator::take', 'std::iter::Iterator::skip', 'std::iter::Iterator::skip_while') or len(tm['args']) < 2:
                 continue
             pdx = pdx or PathDeps(x, src2)
             paths, trunc = pdx.run(bb, 'call')
